@@ -61,7 +61,7 @@ def search(payload):
                     return {'found': True, 'input': ('var_write_int32 history on one object (value, slot)', hist),
                             'observed': f'{ok!r}, slots {dev.vars[base:base + 8]}, read back {back!r}', 'expected': f'True, slots {model[base:base + 8]}, read back {want}', 'tried': tried}
     elif what == 'nickname':
-        for s, prior in itertools.product(('bob', '  bob ', 'two words', '', '   ', 'a,b', 'East EBB 7', 'Lab  A', 'Unit\t7', ' a   b  c '), (None, 'Old Name')):
+        for s, prior in itertools.product(('bob', '  bob ', 'two words', '', '   ', 'a,b', 'East EBB 7', 'Lab  A', 'Unit\t7', ' a   b  c ', 'Tango', 'QT pie', ',lead', 'TTQ,x'), (None, 'Old Name')):
             tried += 1
             dev = EBB3Device()
             e = obj_on(dev)
